@@ -196,6 +196,16 @@ def main(argv=None):
         print(f"  native replay: {str(rep.get('text'))[:400]}")
         print(f"VIOLATION property={a.prop} replay={path}{tail}")
         rc = 1
+    # an obligation that ran out of its time / solver budget and that the ledger does not list (it has never been established on the
+    # unchanged tree within budget: an attempt beyond the guaranteed set, e.g. the larger widths of the thorough tier) is reported as
+    # not decided and listed in the evidence; it is not proved, and it does not make the check fail.  Every ledger obligation must be decided.
+    RES = ("time budget", "exceeded its time budget", "solver unknown", "path budget", "timeout")
+    soft = [r for r in undecided if any(k in str(r.get("reason")) for k in RES)
+            and (a.write_ledger or (key in ledger and r["id"] not in ledger[key])) and not a.only]
+    undecided = [r for r in undecided if r not in soft]
+    n_proof -= sum(1 for r in soft if bytask[r["id"]]["kind"] == "proof")       # not an obligation this run claims anything about
+    for r in soft:
+        print(f"NOT-DECIDED (outside the ledger, not counted as proved) obligation={r['id']} reason={r.get('reason')}")
     for r in undecided:
         print(f"UNDECIDED obligation={r['id']} reason={r.get('reason')}")
     for i in lost:
@@ -226,6 +236,7 @@ def main(argv=None):
         "rule": getattr(P, "RULE", ""),
         "explanation": getattr(P, "EXPLANATION", ""),
         "undecided": len(undecided) + len(lost), "checker_errors": len(errors),
+        "not_decided_within_budget_outside_ledger": [{"obligation": r["id"], "reason": r.get("reason")} for r in soft],
         "partial_explorations_bounded_not_proved": partial,
         "unproved_contract_too_weak": unproved,
         "functions_under_contract": sorted(getattr(P, "FUNCTIONS", [])),
